@@ -188,7 +188,7 @@ def run(tier, seed):
                   "local t={} while true do t[#t+1]=1 t[#t]=nil end", "repeat local s=('x'):rep(3) until false",
                   "for i=1,math.huge do end", "local co=coroutine.wrap(function() while true do coroutine.yield() end end) while true do co() end",
                   "while true do pcall(error,'x') end", "while true do pcall(function() while true do end end) end",
-                  "local mt={} mt.__index=function(t,k) return t[k+1] end local o=setmetatable({},mt) local x=o[1]"]
+                  ]   # (a self-retriggering __index is not "non-terminating": it ends in a stack-overflow error, see C04)
     inf_cases = []
     for bi, body in enumerate(inf_bodies):
         for w in qprogs.WRAPS + qprogs.WRAPS_EXPLICIT:
